@@ -105,8 +105,9 @@ class EncoderLayout:
                 return self.vals[n.id]
             if n.id in self.loopvars:
                 return ("loopvar", n.id)
-            if n.id in self.bufs:
-                return ("bufref", n.id, len(self.bufs[n.id]))
+            if self.canon(n.id) in self.bufs:
+                c = self.canon(n.id)       # a local that is another name of a buffer measures that buffer
+                return ("bufref", c, len(self.bufs[c]))
             if ok:
                 return ("const", int(v)) if isinstance(v, (int, bool)) else ("constobj", repr(v))
             return ("name", n.id)
@@ -846,6 +847,12 @@ class DecoderLayout:
                 t = w.test
                 ok0, start = self.fold(s.value)
                 d = None
+                if isinstance(t, ast.Compare) and len(t.ops) == 1 and isinstance(t.left, ast.Subscript):
+                    # the continuation bit tested on the whole byte:  pkt[v] > 0x7F  /  pkt[v] >= 0x80  ==  pkt[v] & 0x80
+                    okc, cv = self.fold(t.comparators[0])
+                    bit = (cv + 1) if isinstance(t.ops[0], ast.Gt) else (cv if isinstance(t.ops[0], ast.GtE) else None)
+                    if okc and isinstance(cv, int) and bit == 0x80:
+                        t = ast.BinOp(left=t.left, op=ast.BitAnd(), right=ast.Constant(value=0x80))
                 if isinstance(t, ast.BinOp) and isinstance(t.op, ast.BitAnd) and isinstance(t.left, ast.Subscript) \
                         and isinstance(t.left.value, ast.Name) and t.left.value.id == self.pkt:
                     d = self._rel_to(t.left.slice, v)
@@ -917,7 +924,7 @@ class DecoderLayout:
                 return
             # rest = rest[k:]
             if isinstance(t, ast.Name) and isinstance(v, ast.Subscript) and isinstance(v.slice, ast.Slice) and v.slice.upper is None \
-                    and isinstance(v.value, ast.Name) and v.value.id in self.cursors:
+                    and isinstance(v.value, ast.Name) and self.cursor_of(v) is not None:
                 c = self.cursor_of(v)
                 self.cursors[t.id] = c[1]
                 return
